@@ -376,14 +376,11 @@ func dependsOn(v ssa.Value, pred func(ssa.Value) bool) bool {
 		}
 		switch t := x.(type) {
 		case *ssa.Alloc:
-			// values stored into this local
-			if refs := t.Referrers(); refs != nil {
-				for _, r := range *refs {
-					if st, ok := r.(*ssa.Store); ok && st.Addr == t {
-						if walk(st.Val, depth+1) {
-							return true
-						}
-					}
+			// values stored into this local (also through element / field addresses:
+			// composite literals and varargs arrays are built that way)
+			for _, st := range storedThrough(t) {
+				if walk(st.Val, depth+1) {
+					return true
 				}
 			}
 			return false
